@@ -331,16 +331,23 @@ def resolveTrail (db : Db) (path : List Nat) (keep : Bool) (already : Already) (
         else [d]
       | _ => [d]
 
-/-- `Eups._productCache`: `findProductFromVRO` hands out the first `Product` it built for a (name, version, flavor) —
-the key has no stack in it, so a later lookup that finds the same version name in another stack gets the earlier one.
-Kept as (name, version name) ↦ stack. -/
-abbrev PCache := List ((Name × VStr) × Nat)
+/-- `Eups._productCache`: `findProductFromVRO` hands out the first `Product` it built for a key.  Since the repair of
+C03's D94 the key is (product, database), i.e. (name, version, flavor) *and the stack*; before it the key had no stack
+in it, so a later lookup that found the same version name in another stack got the earlier one (`pickDeclPinned`).
+Kept as (name, version name, stack) ↦ stack. -/
+abbrev PCache := List ((Name × VStr × Nat) × Nat)
 
 def cacheIns (c : PCache) (d : Decl) : PCache :=
-  if (aget c (d.name, d.ver.1)).isSome then c else ((d.name, d.ver.1), d.ver.2) :: c
+  if (aget c (d.name, d.ver.1, d.ver.2)).isSome then c else ((d.name, d.ver.1, d.ver.2), d.ver.2) :: c
 
 /-- the product the cache hands out for a product just found -/
 def pickDecl (db : Db) (c : PCache) (d : Decl) : Decl :=
+  match aget c (d.name, d.ver.1, d.ver.2) with
+  | some k => (db.lookup (d.name, (d.ver.1, k))).getD d
+  | none => d
+
+/-- the pinned rule (before the D94 repair): the stack is not part of the key -/
+def pickDeclPinned (db : Db) (c : List ((Name × VStr) × Nat)) (d : Decl) : Decl :=
   match aget c (d.name, d.ver.1) with
   | some k => (db.lookup (d.name, (d.ver.1, k))).getD d
   | none => d
